@@ -51,9 +51,18 @@ def run_one(item):
 
 if __name__ == '__main__':
     its = items()
+    if len(sys.argv) > 1:
+        # only the items matching the regular expression; results are merged into the existing MATRIX.json
+        its = [i for i in its if re.search(sys.argv[1], i[0])]
     with cf.ThreadPoolExecutor(4) as ex:
         results = list(ex.map(run_one, its))
-    json.dump(results, open(os.path.join(ROOT, 'seeded', 'MATRIX.json'), 'w'), indent=1)
+    mj = os.path.join(ROOT, 'seeded', 'MATRIX.json')
+    if len(sys.argv) > 1 and os.path.exists(mj):
+        old = {r['name']: r for r in json.load(open(mj))}
+        for r in results:
+            old[r['name']] = r
+        results = [old[k] for k in sorted(old, key=lambda n: (n[0] != 'C', n))]
+    json.dump(results, open(mj, 'w'), indent=1)
     with open(os.path.join(ROOT, 'seeded', 'MATRIX.md'), 'w') as f:
         f.write('| change | property | exit | caught by | failed obligation (first) |\n|---|---|---|---|---|\n')
         for r in results:
